@@ -23,7 +23,9 @@ RULE = ("schedules: batch size 1..8, 2..4 worker threads (joblib threading backe
         "differs from task order")
 ASSUMPTIONS = ["interleavings are controlled at the granularity the property names (objective call, store "
                "synchronisation); finer interleavings only occur inside 'burst' releases under the OS scheduler",
-               "failure plans are limited to <= 2 leading transient failures per design (no abort of the batch)"]
+               "failure plans are limited to <= 2 leading transient failures per design (no abort of the batch)",
+               "run-level clause: NSGA-II / EpsMOEA / OMOPSO / SMPSO runs (N 2..4, G 1..2) with worker threads under a "
+               "generated release order must record exactly what the serial run with the same seed records"]
 
 
 @st.composite
@@ -260,8 +262,128 @@ def check_subtree(case):
             "nt_keys": nt_keys}
 
 
+# ---------------------------------------------------------------- whole runs: parallel run == serial run, any schedule
+
+@st.composite
+def run_schedules(draw):
+    return {"alg": draw(st.sampled_from(["NSGAII", "NSGAII", "EpsMOEA", "OMOPSO", "SMPSO"])),
+            "N": draw(st.integers(2, 4)), "G": draw(st.integers(1, 2)), "workers": draw(st.integers(2, 3)),
+            "tokens": draw(st.lists(st.one_of(st.integers(0, 3), st.integers(0, 3), st.integers(0, 3), st.just("B")),
+                                    min_size=1, max_size=40)),
+            "store": draw(st.booleans()), "seed": draw(st.integers(0, 2 ** 31))}
+
+
+def _run_alg(case, clause, parallel):
+    from artap.datastore import SqliteDataStore
+    from .c08 import algorithm_class
+    sched = Scheduler(10 ** 9, case["workers"], case["tokens"], cycle=True) if parallel else None
+    lock = threading.Lock()
+    calls = {}
+
+    def gate(name):
+        if sched is not None:
+            sched.gate(name)
+
+    def ev(ind):
+        gate("objective-entry")
+        with lock:
+            calls[id(ind)] = calls.get(id(ind), 0) + 1
+        try:
+            x = [float(v) for v in ind.vector]
+            return [sum(v * v for v in x), sum((v - 1.0) ** 2 for v in x)]
+        finally:
+            gate("objective-exit")
+    ps = [{"name": "a", "bounds": [-1.0, 2.0]}, {"name": "b", "bounds": [-1.0, 2.0]}]
+    cs = [{"name": "f0", "criteria": "minimize"}, {"name": "f1", "criteria": "minimize"}]
+    prob = make_problem(ps, cs, ev)
+    db = None
+    try:
+        with guard(clause):
+            if case["store"]:
+                db = os.path.join(prob.working_dir, "run.sqlite")
+
+                class GatedStore(SqliteDataStore):
+                    def sync_individual(self, individual):
+                        gate("sync-entry")
+                        try:
+                            return super().sync_individual(individual)
+                        finally:
+                            gate("sync-exit")
+                prob.data_store = GatedStore(prob, database_name=db)
+            alg = algorithm_class(case["alg"])(prob)
+            alg.options["max_population_size"] = case["N"]
+            alg.options["max_population_number"] = case["G"]
+            if parallel:
+                alg.options["max_processes"] = case["workers"]
+                real_eval = alg.evaluator.job.evaluate
+                real_par = alg.evaluator.evaluate_parallel
+
+                def tracked(individual):
+                    sched.task_start(id(individual))
+                    try:
+                        return real_eval(individual)
+                    finally:
+                        sched.task_end(id(individual))
+
+                def batch(individuals):
+                    sched.begin_batch(len(individuals))
+                    return real_par(individuals)
+                alg.evaluator.job.evaluate = tracked
+                alg.evaluator.evaluate_parallel = batch
+        seed_all(case["seed"])
+        if parallel:
+            def body():
+                with guard(clause):
+                    alg.run()
+            run_scheduled(sched, body)
+        else:
+            with guard(clause):
+                alg.run()
+        recs = [{"pop": i.population_id, "vector": [float(x) for x in i.vector], "costs": [float(c) for c in i.costs],
+                 "signed": [float(c) if not isinstance(c, bool) else c for c in i.costs_signed], "state": str(i.state),
+                 "id": i.id, "calls": calls.get(id(i), 0)} for i in prob.individuals]
+        rows = None
+        if db:
+            con_ = sqlite3.connect(db)
+            rows = {r[0]: json.loads(r[1]) for r in con_.execute("SELECT id, individual FROM individuals")}
+            con_.close()
+        return recs, rows, sched, sum(calls.values())
+    finally:
+        dispose(prob)
+
+
+def check_run_schedule(case):
+    exp, _, _, exp_calls = _run_alg(case, "run-schedule", parallel=False)
+    got, rows, sched, got_calls = _run_alg(case, "run-schedule", parallel=True)
+    if len(got) != len(exp):
+        raise Violation("run-schedule", "%s:recorded-count" % case["alg"], "%d individuals recorded in parallel, %d in serial" % (
+            len(got), len(exp)))
+    if got_calls != exp_calls:
+        raise Violation("run-schedule", "%s:objective-calls" % case["alg"], "%d objective calls in parallel, %d in serial" % (
+            got_calls, exp_calls))
+    for k, (e, g) in enumerate(zip(exp, got)):
+        for key in ("pop", "vector", "costs", "signed", "state"):
+            if e[key] != g[key]:
+                raise Violation("run-schedule", "%s:differs-from-serial:%s" % (case["alg"], key),
+                                "%s N=%d G=%d workers=%d: recorded individual %d has %s %r, the serial run %r" % (
+                                    case["alg"], case["N"], case["G"], case["workers"], k, key, g[key], e[key]))
+    if rows is not None:
+        for g in got:
+            row = rows.get(g["id"])
+            if row is None:
+                raise Violation("run-schedule", "%s:row-missing" % case["alg"], "recorded individual id %r has no row" % (
+                    g["id"],))
+            if [float(x) for x in row["vector"]] != g["vector"] or [float(x) for x in row["costs"]] != g["costs"] \
+                    or row["population_id"] != g["pop"]:
+                raise Violation("run-schedule", "%s:row-stale" % case["alg"], "row %r vs final %r" % (
+                    {k_: row[k_] for k_ in ("vector", "costs", "population_id")}, g))
+    return {"nt": sched.max_inflight >= 2, "classes": [case["alg"], "inflight%d" % min(sched.max_inflight, 4),
+                                                      "store" if case["store"] else "dummy"]}
+
+
 CLAUSES = [
     Clause("schedule", schedules(), check_schedule, quick=400, thorough=3000, quick_shards=4),
+    Clause("run-schedule", run_schedules(), check_run_schedule, quick=80, thorough=600, quick_shards=4),
 ]
 ENUMS = [
     Enum("all-schedules", subtree_items, check_subtree, tiers=("quick", "thorough"), chunk=1,
